@@ -97,13 +97,6 @@ func replaceLaws(re *regexp2.Regexp, gt *ref.GroupTable, s, repl string, startAt
 		}
 		return "", "", 0
 	}
-	if gt.ECMA && ecmaOddBrace(repl) {
-		// under ECMAScript a group name may start with $, _ or a \u escape, so "${$" or "${\" opens a
-		// name and whatever does not complete one is rejected ("invalid capture group name"): not a
-		// string of the $-grammar
-		st("replacement-ecma-name-start")
-		return "", "", 0
-	}
 	if ref.ReplacementOverflows(repl) {
 		// not a replacement string of the $-grammar: a group number beyond 32 bits is rejected (as in .NET)
 		st("replacement-number-overflow")
@@ -237,22 +230,6 @@ func splitLaws(re *regexp2.Regexp, s string, count int, st c09Stats) (detail, in
 }
 
 // ecmaOddBrace: some "${" is not followed by a plain word and a closing brace.
-func ecmaOddBrace(repl string) bool {
-	for i := 0; i+1 < len(repl); i++ {
-		if repl[i] != '$' || repl[i+1] != '{' {
-			continue
-		}
-		j := i + 2
-		for j < len(repl) && (repl[j] == '_' || repl[j] >= '0' && repl[j] <= '9' || repl[j] >= 'a' && repl[j] <= 'z' || repl[j] >= 'A' && repl[j] <= 'Z') {
-			j++
-		}
-		if j == i+2 || j >= len(repl) || repl[j] != '}' {
-			return true
-		}
-	}
-	return false
-}
-
 func groupTableOf(re *regexp2.Regexp, opts int) *ref.GroupTable {
 	return &ref.GroupTable{Numbers: re.GetGroupNumbers(), Names: re.GetGroupNames(), ECMA: opts&int(regexp2.ECMAScript) != 0}
 }
@@ -285,7 +262,7 @@ func genReplacement(rng *rand.Rand, gt *ref.GroupTable) string {
 			sb.WriteString("$_")
 		case 12:
 			// ambiguous / unknown references
-			sb.WriteString([]string{"$10", "$99", "${1}0", "${nope}", "${", "${1", "$x", "$ ", "${}", "$-", "$$$1", "$0", "${0}", "$01", "${01}"}[rng.Intn(15)])
+			sb.WriteString([]string{"$10", "$99", "${1}0", "${nope}", "${", "${1", "$x", "$ ", "${}", "$-", "$$$1", "$0", "${0}", "$01", "${01}", "${\\", "${n\\x}", "${\\u00}", "$12", "$11x", "${12}"}[rng.Intn(21)])
 		case 13:
 			sb.WriteString("$")
 		case 14:
@@ -323,7 +300,31 @@ func runC09(r *core.Run) int {
 	r.Parallel(nPat, func(i int, l *core.Local) {
 		rng := rand.New(rand.NewSource(base + int64(i)*1000003))
 		var pc *patCase
-		if i%4 == 3 {
+		if i%12 == 5 {
+			// many groups: two-digit group numbers ($10, $12 under both digit rules), 9 to 14 groups over
+			// distinct letters, some optional, some named
+			k := 9 + rng.Intn(6)
+			root := gen.Cat()
+			for gi := 1; gi <= k; gi++ {
+				grp := &gen.Node{K: gen.KGroup, Capture: true, GID: gi, Kids: []*gen.Node{gen.L(rune('a' + gi - 1))}}
+				if rng.Intn(5) == 0 {
+					grp.Name = "n" + string(rune('a'+gi-1))
+				}
+				var item *gen.Node = grp
+				if rng.Intn(6) == 0 {
+					item = gen.Rep(grp, 0, 1)
+				}
+				root.Kids = append(root.Kids, item)
+			}
+			opts := 0
+			if rng.Intn(4) == 0 {
+				opts |= int(regexp2.RightToLeft)
+			}
+			if p := gen.Finish(root, envOf(opts), false, gen.PrintOpts{}); p != nil {
+				pc = &patCase{src: p.Src, opts: opts, pat: p, origin: "many-groups"}
+				l.Count("patterns_with_9_to_14_groups", 1)
+			}
+		} else if i%4 == 3 {
 			pc = makePattern(i, rng, [3]int{1, 0, 2}, 8)
 			noteCtx(l, pc)
 		} else {
